@@ -81,7 +81,7 @@ InitState == V3(1, 0, 0)
 PidInit == [now |-> 0, xst |-> Nothing, xcmd |-> Nothing, clock |-> 0, sval |-> InitState, cval |-> InitCmd,
             pid |-> [cmd |-> InitCmd, lastReq |-> Nothing, u |-> [c |-> "empty"]],
             twin |-> [cmd |-> InitCmd, lastReq |-> Nothing, u |-> [c |-> "empty"]],
-            motor |-> <<>>, fresh |-> TRUE]
+            motor |-> <<>>, fresh |-> TRUE, poisoned |-> FALSE, start |-> 0]
 PidOps == {[op |-> "state"], [op |-> "cmd", k |-> 0], [op |-> "cmd", k |-> 1], [op |-> "cmd", k |-> 2], [op |-> "both", k |-> 1], [op |-> "update"]}
 (* CommandPID::update while following the command getter: set(command), then the input sample *)
 PidUpdate(p, c, t, sv) ==
@@ -96,6 +96,11 @@ PidStep(o) ==
     [] o.op = "update" ->
          LET d == Seen(st)
          IN  IF IsNothing(d) THEN <<[st EXCEPT !.motor = IF CmdObs(st.pid).c = "some" THEN Append(@, CmdObs(st.pid).v) ELSE @], RetOk>>
+             (* A round in which the terminal shows the SAME data time again (nothing new, or only a command while a state is *)
+             (* present: the combined datum carries the state's time): the real controller divides by a zero interval and    *)
+             (* its output is NaN / infinite from then on.  Exact rationals cannot follow it; the behaviour is marked         *)
+             (* poisoned and from here on only the bit-for-bit comparison with the real stand-alone controller decides.      *)
+             ELSE IF st.poisoned \/ ~st.fresh THEN <<[st EXCEPT !.poisoned = TRUE], RetOk>>
              ELSE LET dd == The(d)
                       sv == IF IsJust(dd.st) THEN The(dd.st) ELSE st.sval
                       cv == IF IsJust(dd.cmd) THEN The(dd.cmd) ELSE st.cval
@@ -105,22 +110,21 @@ PidStep(o) ==
                       out == CmdObs(p2)
                   IN  <<[st EXCEPT !.clock = dd.t, !.sval = sv, !.cval = cv, !.pid = p2, !.twin = t2, !.fresh = FALSE,
                                    !.motor = IF out.c = "some" THEN Append(@, out.v) ELSE @], RetOk>>
-(* the model is total only when every update sees a new data time (otherwise the real controller divides by a zero interval) *)
-PidEnabled(o) == o.op # "update" \/ st.fresh \/ IsNothing(Seen(st))
-PidObs(s) == [motor |-> s.motor, out |-> CmdObs(s.pid), twin |-> CmdObs(s.twin)]
+PidObs(s) == [motor |-> s.motor, out |-> CmdObs(s.pid), twin |-> CmdObs(s.twin), poisoned |-> s.poisoned, start |-> s.start]
 
 -----------------------------------------------------------------------------
 Ops == CASE Family = "actuator" -> ActOps [] Family = "encoder" -> EncOps [] Family = "pid" -> PidOps
 StepOf(o) == CASE Family = "actuator" -> ActStep(o) [] Family = "encoder" -> EncStep(o) [] Family = "pid" -> PidStep(o)
 ObsOf(s) == CASE Family = "actuator" -> ActObs(s) [] Family = "encoder" -> EncObs(s) [] Family = "pid" -> PidObs(s)
 
-Init == /\ st = (CASE Family = "actuator" -> ActInit [] Family = "encoder" -> EncInit [] Family = "pid" -> PidInit)
+(* the PID family starts its environment clock at 0 or at -1: in the second case the first datum carries the wrapper's own initial time *)
+Init == /\ \E n0 \in (IF Family = "pid" THEN {0, -1} ELSE {0}) :
+              st = (CASE Family = "actuator" -> ActInit [] Family = "encoder" -> EncInit [] Family = "pid" -> [PidInit EXCEPT !.now = n0, !.start = n0])
         /\ hist = <<>>
         /\ n = 0
 Next == /\ n < MaxLen
         /\ n' = n + 1
         /\ \E o \in Ops :
-              /\ (Family = "pid" => PidEnabled(o))
               /\ LET r == StepOf(o)
                  IN  /\ st' = r[1]
                      /\ hist' = IF Emit THEN Append(hist, [a |-> o, ret |-> r[2], obs |-> ObsOf(r[1]),
